@@ -72,6 +72,13 @@ func (m *Model) Layout() {
 				col = 0
 				continue
 			}
+			if col > 0 && col+char.Width > m.width {
+				// a wide character doesn't fit in what is left
+				// of this line
+				m.lines = append(m.lines, l)
+				l = &line{}
+				col = 0
+			}
 			cell := vaxis.Cell{
 				Character: char,
 				Style:     seg.Style,
